@@ -41,14 +41,46 @@ theorem firstDrain_ok (l : List Step) (h : ∀ s ∈ l, s = .ok ∨ s = .raises 
     drainWith G G.firstDrainSkips G.firstDrainEnds l = .ok :=
   drainWith_ok _ _ (by decide) (by decide) l h
 
+theorem guard_convert : ∀ e : Exc, (isA G e .ValueError = true ∨ isA G e .StructError = true) →
+    caught G G.attachConvert e = true := by
+  intro e; cases e <;> decide
+
+/-- whatever the OS and the mapped bytes do, `ShmSegment.attach` returns or raises an OSError / ValueError -/
+theorem attachStep_sane (rq : Req)
+    (h1 : ∀ e, rq.shmOpen = .raises e → isA G e .OSError = true ∨ isA G e .ValueError = true)
+    (h2 : ∀ e, rq.allocInit = .raises e → isA G e .ValueError = true ∨ isA G e .StructError = true) :
+    ∀ e, attachStep G rq = .raises e → isA G e .OSError = true ∨ isA G e .ValueError = true := by
+  intro e he
+  unfold attachStep at he
+  cases ho : rq.shmOpen with
+  | raises e' => rw [ho] at he; simp at he; subst he; exact h1 e' ho
+  | ok =>
+    rw [ho] at he
+    cases ha : rq.allocInit with
+    | raises e' =>
+      rw [ha] at he
+      simp [guard_convert e' (h2 e' ha)] at he
+      subst he; right; decide
+    | ok => rw [ha] at he; simp at he
+    | blocks => rw [ha] at he; simp at he
+  | blocks =>
+    rw [ho] at he
+    cases ha : rq.allocInit with
+    | raises e' =>
+      rw [ha] at he
+      simp [guard_convert e' (h2 e' ha)] at he
+      subst he; right; decide
+    | ok => rw [ha] at he; simp at he
+    | blocks => rw [ha] at he; simp at he
+
 theorem maybeAttach_ok (rq : Req)
-    (h : ∀ e, rq.attach = .raises e → isA G e .OSError = true ∨ isA G e .ValueError = true) :
+    (h : ∀ e, attachStep G rq = .raises e → isA G e .OSError = true ∨ isA G e .ValueError = true) :
     ∃ b, maybeAttach G rq = .ok b := by
   have d1 : caught G G.attachMdDecode .UnicodeDecodeError = true := by decide
   have d2 : caught G G.attachMdDecode .ValueError = true := by decide
   cases hn : rq.shmName <;> cases hs : rq.shmSize <;> simp [maybeAttach, hn, hs, d1, d2]
   all_goals
-    cases ha : rq.attach with
+    cases ha : attachStep G rq with
     | ok => simp
     | blocks => simp
     | raises e => simp [guard_attach e (h e ha)]
@@ -65,7 +97,7 @@ theorem body_cases (rq : Req) (hasp : ∀ e, rq.asPy = .raises e → isA G e .Ex
 
 theorem resolveBody_cases (rq : Req) (b : Bool) (sane : Spec.PrimitivesSane G rq) :
     resolveBody G rq b = .ok () ∨ resolveBody G rq b = .raises .RpcError := by
-  obtain ⟨_, hres, hresb, hrel, hasp, _, _, _⟩ := sane
+  obtain ⟨_, _, hres, hresb, hrel, hasp, _, _, _⟩ := sane
   have hb := body_cases rq hasp
   unfold resolveBody
   by_cases hbp : (b && rq.isPointer) = true
@@ -82,7 +114,7 @@ theorem resolveBody_cases (rq : Req) (b : Bool) (sane : Spec.PrimitivesSane G rq
   · simp only [hbp, Bool.false_eq_true, if_false]
     exact hb
 
-theorem segment_ok (rq : Req) (hatt : ∀ e, rq.attach = .raises e → isA G e .OSError = true ∨ isA G e .ValueError = true) :
+theorem segment_ok (rq : Req) (hatt : ∀ e, attachStep G rq = .raises e → isA G e .OSError = true ∨ isA G e .ValueError = true) :
     ∃ b, segment G rq = .ok b := by
   unfold segment
   by_cases hs : rq.staticShm
@@ -96,7 +128,7 @@ theorem afterDrain_cases (rq : Req) (sane : Spec.PrimitivesSane G rq) :
     afterDrain G rq = .ok () ∨ afterDrain G rq = .raises .RpcError ∨ afterDrain G rq = .raises .VersionError := by
   have t1 : caught G G.traceDecode .UnicodeDecodeError = true := by decide
   have t2 : caught G G.methodDecode .UnicodeDecodeError = true := by decide
-  obtain ⟨b, hb⟩ := segment_ok rq sane.1
+  obtain ⟨b, hb⟩ := segment_ok rq (attachStep_sane rq sane.1 sane.2.1)
   have hrb := resolveBody_cases rq b sane
   unfold afterDrain
   simp only [t1, t2, Bool.not_true, Bool.and_false, Bool.false_eq_true, if_false, hb]
@@ -135,7 +167,8 @@ theorem readRequest_wf (rq : Req) (wf : Spec.WellFramed rq) (sane : Spec.Primiti
 theorem serveOne_wf (rq : Req) (wf : Spec.WellFramed rq) (sane : Spec.PrimitivesSane G rq) :
     Spec.AnsweredAndServing (serveOne G rq) := by
   have hrr := readRequest_wf rq wf sane
-  obtain ⟨hatt, _, _, _, _, hver, hval, hcall⟩ := sane
+  obtain ⟨hopen, halloc, _, _, _, _, hver, hval, hcall⟩ := sane
+  have hatt := attachStep_sane rq hopen halloc
   have r1 : (G.readRequestTry.find? fun h => caught G h.1 .RpcError) = some ([.VersionError, .RpcError], false) := by decide
   have r2 : (G.readRequestTry.find? fun h => caught G h.1 .VersionError) = some ([.VersionError, .RpcError], false) := by decide
   have f5 : G.firstReadDrains = true := by decide
@@ -294,13 +327,16 @@ theorem tables_guarded :
       caught Tables.gen Tables.gen.attachGuard e = true) ∧
     (∀ e : Exc, isA Tables.gen e .ValueError = true →
       caught Tables.gen Tables.gen.pointerGuard e = true ∧ caught Tables.gen Tables.gen.releaseGuard e = true) ∧
+    (∀ e : Exc, (isA Tables.gen e .ValueError = true ∨ isA Tables.gen e .StructError = true) →
+      caught Tables.gen Tables.gen.attachConvert e = true) ∧
+    (∀ e ∈ Gen.C05.allocInitRaises, isA Tables.gen e .ValueError = true ∨ isA Tables.gen e .StructError = true) ∧
     caught Tables.gen Tables.gen.traceDecode .UnicodeDecodeError = true ∧
     caught Tables.gen Tables.gen.firstRead .StopIteration = true ∧ caught Tables.gen Tables.gen.firstRead .IPCError = true ∧
     Tables.gen.firstReadDrains = true ∧ caught Tables.gen Tables.gen.drainSkips .IPCError = true ∧
     caught Tables.gen Tables.gen.firstDrainSkips .IPCError = true ∧
     caught Tables.gen Tables.gen.firstDrainEnds .StopIteration = true ∧
     caught Tables.gen Tables.gen.firstDrainEnds .IPCError = false :=
-  ⟨Aux.guard_exception, Aux.guard_attach, Aux.guard_value, by decide, by decide, by decide, by decide, by decide, by decide,
+  ⟨Aux.guard_exception, Aux.guard_attach, Aux.guard_value, Aux.guard_convert, by decide, by decide, by decide, by decide, by decide, by decide, by decide,
    by decide, by decide⟩
 
 /-- `Spec.WellFramedAnswered`: every well-framed request — any metadata, columns, rows, segment names, pointer values;
@@ -359,13 +395,13 @@ represent, satisfies the hypotheses -/
 example : Spec.WellFramed
       { openStream := .ok, firstRead := .ok, laterReads := [.raises .IPCError, .ok], hasMethod := true, methodText := true,
         version := .current, traceparent := .undecodable, tracestate := .absent, shmName := .text, shmSize := .numeric,
-        isPointer := true, staticShm := false, attach := .raises .FileNotFoundError, resolve := .ok, release := .ok,
+        isPointer := true, staticShm := false, shmOpen := .raises .FileNotFoundError, allocInit := .raises .StructError, resolve := .ok, release := .ok,
         ncols := 2, rows := 0, asPy := .raises .OverflowError, isTransportOptions := false, methodKnown := true,
         versionCheck := .ok, validate := .raises .TypeError, call := .ok } ∧
     Spec.PrimitivesSane Tables.gen
       { openStream := .ok, firstRead := .ok, laterReads := [.raises .IPCError, .ok], hasMethod := true, methodText := true,
         version := .current, traceparent := .undecodable, tracestate := .absent, shmName := .text, shmSize := .numeric,
-        isPointer := true, staticShm := false, attach := .raises .FileNotFoundError, resolve := .ok, release := .ok,
+        isPointer := true, staticShm := false, shmOpen := .raises .FileNotFoundError, allocInit := .raises .StructError, resolve := .ok, release := .ok,
         ncols := 2, rows := 0, asPy := .raises .OverflowError, isTransportOptions := false, methodKnown := true,
         versionCheck := .ok, validate := .raises .TypeError, call := .ok } := by
   refine ⟨⟨rfl, Or.inl rfl, by simp⟩, ?_⟩
